@@ -157,6 +157,30 @@ def overlapping_windows(seq, journal="checkpoints", domains=None, is_git=None):
     return False
 
 
+def report_straddles_git_command(seq, is_git):
+    """Finding D74 by call site. True when an agent report started reading the journal (from which it derives the list of files to
+    re-examine, together with `git status`) BEFORE a git command had finished and entered `append_checkpoint` only AFTER that git command
+    had exited: the report was computed, at least in part, against a state that the git command (stash, reset, amend: operations that
+    change the work tree / working log without moving HEAD) has since replaced. (When HEAD moves in between, the report lands in the old
+    commit's working log instead: finding D45.)"""
+    first, app, ex = {}, {}, {}
+    for i, (who, point) in enumerate(seq):
+        name = point.partition("@")[0]
+        if point == "exit":
+            ex[who] = i
+            continue
+        first.setdefault(who, i)
+        if name == "checkpoints.append":
+            app.setdefault(who, i)
+    for a in first:
+        if is_git[a] or a not in app:
+            continue
+        for g in first:
+            if is_git[g] and g in ex and first[a] < ex[g] < app[a]:
+                return True
+    return False
+
+
 def scenario(kind, choices, serial=None):
     """Run one operation pair under a schedule (or serially in the given order, no sync points) and return its observable outcome."""
     c = Ctl("C11")
@@ -213,6 +237,41 @@ def scenario(kind, choices, serial=None):
             else:
                 cmds = [(["commit", "-q", "-m", "c-main"], repo, True), (["commit", "-q", "-m", "c-other"], wt, True)]
             probes = [(repo, "a.txt", "ai line of S1"), (wt, "b.txt", "ai line of S2")]
+        elif kind == "ckpt-stash":
+            # S1's reported lines in a.txt are pending; `git stash push` snapshots the pending attribution while another agent reports b.txt
+            w.human_ckpt(["a.txt"]); w.write_bytes("a.txt", b"one\ntwo\nthree\nai line of S1\n"); w.ai_ckpt("S1", ["a.txt"])
+            w.human_ckpt(["b.txt"]); w.write_bytes("b.txt", b"one\ntwo\nthree\nai line of S2\n")
+            cmds = [(["stash", "push", "-q", "--", "a.txt"], repo, True),
+                    (["checkpoint", "agent-v1", "--hook-input", ai_payload(w, repo, "S2", "b.txt")], repo, False)]
+            probes = [(repo, "a.txt", "ai line of S1"), (repo, "b.txt", "ai line of S2")]
+        elif kind == "ckpt-amend":
+            # HEAD holds S1's line; `git commit --amend` (adding S3's staged line of c.txt) runs while another agent reports b.txt
+            w.human_ckpt(["a.txt"]); w.write_bytes("a.txt", b"one\ntwo\nthree\nai line of S1\n"); w.ai_ckpt("S1", ["a.txt"])
+            w.git("add", "a.txt"); w.git("commit", "-q", "-m", "c1")
+            w.human_ckpt(["c.txt"]); w.write_bytes("c.txt", b"one\ntwo\nthree\nai line of S3\n"); w.ai_ckpt("S3", ["c.txt"])
+            w.git("add", "c.txt")
+            w.human_ckpt(["b.txt"]); w.write_bytes("b.txt", b"one\ntwo\nthree\nai line of S2\n")
+            cmds = [(["commit", "-q", "--amend", "-m", "c1 amended"], repo, True),
+                    (["checkpoint", "agent-v1", "--hook-input", ai_payload(w, repo, "S2", "b.txt")], repo, False)]
+            probes = [(repo, "a.txt", "ai line of S1"), (repo, "b.txt", "ai line of S2"), (repo, "c.txt", "ai line of S3")]
+        elif kind == "ckpt-reset":
+            # the last commit (S1's line) is un-done with `reset --soft` while another agent reports b.txt
+            w.human_ckpt(["a.txt"]); w.write_bytes("a.txt", b"one\ntwo\nthree\nai line of S1\n"); w.ai_ckpt("S1", ["a.txt"])
+            w.git("add", "a.txt"); w.git("commit", "-q", "-m", "c1")
+            w.human_ckpt(["b.txt"]); w.write_bytes("b.txt", b"one\ntwo\nthree\nai line of S2\n")
+            cmds = [(["reset", "-q", "--soft", "HEAD~1"], repo, True),
+                    (["checkpoint", "agent-v1", "--hook-input", ai_payload(w, repo, "S2", "b.txt")], repo, False)]
+            probes = [(repo, "a.txt", "ai line of S1"), (repo, "b.txt", "ai line of S2")]
+        elif kind == "commit-ckpt-wt":
+            # a commit in the main work tree and an agent report in a linked work tree of the same repository (private journals)
+            wt = os.path.join(w.root, "wt2")
+            w.git("worktree", "add", "-q", "-b", "other", wt, plain=True)
+            w.human_ckpt(["a.txt"]); w.write_bytes("a.txt", b"one\ntwo\nthree\nai line of S1\n"); w.ai_ckpt("S1", ["a.txt"])
+            w.git("add", "-A")
+            w.human_ckpt(["b.txt"], cwd=wt); w.write_bytes("b.txt", b"one\ntwo\nthree\nai line of S2\n", wt)
+            cmds = [(["commit", "-q", "-m", "c-main"], repo, True),
+                    (["checkpoint", "agent-v1", "--hook-input", ai_payload(w, wt, "S2", "b.txt")], wt, False)]
+            probes = [(repo, "a.txt", "ai line of S1"), (wt, "b.txt", "ai line of S2")]
         if serial is not None:
             seq, opts = [("serial", list(serial))], []
             for i in serial:
@@ -254,6 +313,8 @@ def scenario(kind, choices, serial=None):
         # ---- close and observe
         outcome = {}
         for path in ([repo] + ([wt] if wt else [])):
+            if kind == "ckpt-stash" and w.ogit("stash", "list", cwd=path).strip():
+                w.git("stash", "pop", "-q", cwd=path)
             if w.ogit("status", "--porcelain", cwd=path).strip():
                 w.git("add", "-A", cwd=path); w.git("commit", "-q", "-m", "after", cwd=path)
             head = w.ogit("rev-parse", "HEAD", cwd=path).strip()
@@ -279,7 +340,7 @@ def scenario(kind, choices, serial=None):
                     for part in rng_.split(","):
                         lo, _, hi = part.partition("-")
                         if int(lo) <= ln <= int(hi or lo):
-                            who = {session_hash("S1"): "S1", session_hash("S2"): "S2"}.get(h, h)
+                            who = {session_hash("S1"): "S1", session_hash("S2"): "S2", session_hash("S3"): "S3"}.get(h, h)
             except (ValueError, KeyError):
                 pass
             outcome["%s:%s" % (os.path.basename(path), text)] = who
@@ -306,17 +367,19 @@ def run_case(case):
     ser = serial_outcomes(kind)
     r = scenario(kind, case["choices"])
     viol = list(r["viol"])
-    d8 = d45 = 0
+    d8 = d45 = d74 = 0
     if r.get("inconclusive") is None and r.get("outcome") not in ser:
         v = dict(kind="C11/not-serializable", pair=kind, outcome=r["outcome"], serial_outcomes=ser, schedule=r["seq"])
         if overlapping_windows(r["seq"], domains=r.get("domains"), is_git=r.get("is_git")):
             d8 = 1          # open finding D8, identified by call site: two journal read..consume windows overlap
         elif r.get("stale"):
             d45 = 1         # open finding D45: a checkpoint process resolved its base commit before a commit landed and wrote to the stale log
+        elif report_straddles_git_command(r["seq"], r.get("is_git") or []):
+            d74 = 1         # open finding D74: the report read its file list before a log-rewriting git command ran and appended after it
         else:
             viol.append(v)
-    return dict(index=case["index"], case=case, viol=viol,
-                stats=dict(schedules=1, d8_instances=d8, d45_instances=d45, serializable=int(r.get("outcome") in ser),
+    return dict(index=case["index"], case=case, viol=viol, d74=d74,
+                stats=dict(schedules=1, d8_instances=d8, d45_instances=d45, d74_instances=d74, serializable=int(r.get("outcome") in ser),
                            sync_points_released=len([x for x in (r.get("seq") or []) if x[1] != "exit"])),
                 sig="%s|%s" % (kind, r.get("seq")), log=[[kind]] + [list(x) for x in (r.get("seq") or [])], nontrivial=bool(r.get("seq")),
                 inconclusive=r.get("inconclusive"), opts=r.get("opts"), d8=d8, d45=d45,
@@ -382,7 +445,9 @@ def main(tier, seed, replay=None):
         rep.add_results([run_case(case)])
         return rep.finish(min_nontrivial=0)
     witnesses.replay_for(rep, "C11")
-    kinds = ["ckpt-ckpt-diff", "ckpt-ckpt-same", "ckpt-commit", "ckpt-commit-leftover", "commit-commit-wt"] + (["commit-rebase-wt"] if tier == "thorough" else [])
+    kinds = ["ckpt-ckpt-diff", "ckpt-ckpt-same", "ckpt-commit", "ckpt-commit-leftover", "commit-commit-wt", "ckpt-stash", "ckpt-amend", "ckpt-reset", "commit-ckpt-wt"] + (["commit-rebase-wt"] if tier == "thorough" else [])
+    if os.environ.get("VERIF_C11_KINDS"):
+        kinds = os.environ["VERIF_C11_KINDS"].split(",")
     limit = 6 if tier == "quick" else 600
     nrand = 14 if tier == "quick" else 60
     import concurrent.futures as cf
@@ -400,7 +465,7 @@ def main(tier, seed, replay=None):
         futs = {k: ex.submit(both, k, i * 10000) for i, k in enumerate(kinds)}
         for k, f in futs.items():
             res, done = f.result()
-            exhaustive[k] = dict(schedules=len(res), exhaustive=done, serializable=sum(r['stats']['serializable'] for r in res), d8_instances=sum(r.get("d8", 0) for r in res), d45_instances=sum(r.get("d45", 0) for r in res), serial_outcomes=_SERIAL.get(k))
+            exhaustive[k] = dict(schedules=len(res), exhaustive=done, serializable=sum(r['stats']['serializable'] for r in res), d8_instances=sum(r.get("d8", 0) for r in res), d45_instances=sum(r.get("d45", 0) for r in res), d74_instances=sum(r.get("d74", 0) for r in res), serial_outcomes=_SERIAL.get(k))
             rep.add_results(res)
     n, kept = stress(8 if tier == "quick" else 16)
     rep.counters["stress_parallel_checkpoints"] = n
